@@ -52,6 +52,7 @@ snippet("count_nonzero", "def f(a):\n    return np.count_nonzero(a > 2)", [(A5,)
 snippet("cumsum", "def f(a):\n    return np.insert(np.cumsum(a), 0, 0)", [(A5,), (ints(),), (ints(4),)])
 snippet("sum", "def f(a):\n    return a.sum() + np.sum(a)", [(A5,), (ints(),)], exact=False)
 snippet("diff", "def f(a):\n    return np.diff(a)", [(A5,), (ints(2),)])
+snippet("clip", "def f(a, b):\n    return np.clip(a, 0, 4) + np.clip(b, 3, 1) + np.clip(a, None, 2)", [(A5, ints(1, 1, 9, 0, 5))])
 snippet("where-minmax", "def f(a, b):\n    return np.where(a > b, np.minimum(a, 2), np.maximum(b, 0))", [(A5, ints(1, 1, 9, 0, 5))])
 snippet("append-insert", "def f(a, p):\n    return np.append(np.insert(a, p, 77), 88)", [(A5, p) for p in (0, 2, 5)])
 snippet("insert-multi", "def f(a, idx, v):\n    return np.insert(a, idx, v)", [(A5, ints(0, 2, 5), ints(70, 71, 72)), (A5, ints(1, 3), 0), (A5, ints(), ints()), (A5, ints(5), 9)], exact=False)
